@@ -40,6 +40,11 @@ def CMP(p, v, op="==", cal="false"):
     return f'<xtce:Comparison parameterRef="{p}" value="{v}" comparisonOperator="{op}" useCalibratedValue="{cal}"/>'
 
 
+def CMPD(p, v, op=None):
+    """a Comparison with its OPTIONAL attributes left out (comparisonOperator defaults to "==", useCalibratedValue to "true")"""
+    return f'<xtce:Comparison parameterRef="{p}" value="{v}"' + (f' comparisonOperator="{op}"' if op else "") + "/>"
+
+
 def CMPLIST(*c):
     return "<xtce:ComparisonList>" + "".join(c) + "</xtce:ComparisonList>"
 
@@ -111,7 +116,7 @@ T["T1"] = (doc(
     + I("C_T", 6, "unsigned", DEFCAL(POLY((0.5, 1), (-1, 0))) + CTXCAL((CMP("E", "1"), SPLINE([(0, 0), (10, 5), (63, -3)], 1))))
     + STR("STR_T", '<xtce:SizeInBits><xtce:Fixed><xtce:FixedValue>24</xtce:FixedValue></xtce:Fixed><xtce:TerminationChar>00</xtce:TerminationChar></xtce:SizeInBits>'),
     params=[("N", "N_T"), ("BODY", "BODY_T"), ("S12", "S12_T"), ("F32", "F32_T"), ("E", "E_T"), ("C", "C_T"), ("STR", "STR_T")],
-    root_entries=[], children=cont("P0", ["N", "BODY", "S12", "F32", "E", "C", "STR"], "CCSDSPacket", CMP("APID", "0", cal="true"))),
+    root_entries=[], children=cont("P0", ["N", "BODY", "S12", "F32", "E", "C", "STR"], "CCSDSPacket", CMPD("APID", "0"))),      # optional attributes omitted; the compared value is 0
     6 + 13, "clean when N=4 (BODY 24 bits): 4+24+12+32+2+6+24 = 104 bits")
 
 # T2: strings and binaries with every length source (leading size, calibrated reference, discrete lookups, UTF-16 with declared byte order)
@@ -160,7 +165,8 @@ T["T4"] = (doc(
     + cont("L2C", ["E4", "H8"], "L1B", "<xtce:BooleanExpression>" + COND("C8", "==", v="200", lcal="false") + "</xtce:BooleanExpression>")
     + cont("L2D", ["J4"], "L1B", CMP("C8", "199", "&gt;"))                                  # overlaps with L2C at C8 == 200: ambiguity under a CONCRETE parent
     + cont("L3A", ["C8"], "L2A", CMP("E4", "15", "!="), abstract="true")                    # abstract with one conditional child: dead end possible
-    + cont("L4A", ["D6"], "L3A", CMP("C8", "0"))),
+    + cont("L4A", ["D6"], "L3A", CMP("C8", "0"))
+    + cont("L5U", ["G2"], "L4A")),                                                         # UNCONDITIONAL inheritance: <BaseContainer> without <RestrictionCriteria> always applies
     6 + 3, "many shapes; lengths vary per branch")
 
 # T5 (bit accounting): layouts whose consumed size depends on earlier fields, with adjusters of positive, zero and negative intercepts,
@@ -249,6 +255,11 @@ T["TD"] = (doc(
     6 + 4, "flat layout for create_dataset: 8 + 16 + 2 + 1 + 5 = 32 bits")
 
 
+# TI (plain, flat): two plain integer fields and nothing that forks - long streams stay a single path.  6 + 3 bytes.
+T["TI"] = (doc(types=I("A_T", 8) + I("B_T", 16), params=[("A", "A_T"), ("B", "B_T")], root_entries=["A", "B"], children="", root_abstract="false"),
+           6 + 3, "flat: 8 + 16 bits")
+
+
 def get(name):
     if name in T:
         return T[name]
@@ -293,7 +304,7 @@ def _size_source(src, fixed_bits):
     raise KeyError(src)
 
 
-def string_template(codec, delim, src, off, order="mostSignificantByteFirst"):
+def string_template(codec, delim, src, off, order="mostSignificantByteFirst", last=False):
     unit = 2 if codec.startswith("UTF-16") else 4 if codec.startswith("UTF-32") else 1
     fixed_bits = {"fixed": 8 * unit * 3, "fixed-odd": 8 * unit * 3 - 3}.get(src, 8 * unit * 2)
     extra = ""
@@ -312,7 +323,7 @@ def string_template(codec, delim, src, off, order="mostSignificantByteFirst"):
     lcal = DEFCAL(POLY((8, 1))) if src == "ref-cal" else DEFCAL(POLY((16, 0), (8, 1))) if src == "ref-raw-of-cal" else ""
     types = (I("PAD_T", max(off, 1)) + I("LENF_T", 4, "unsigned", lcal) + I("U4_T", 4)
              + STR("S_T", size, enc=codec, order=o))
-    ents = (["PAD"] if off else []) + ["LENF", "S", "TAIL"]
+    ents = (["PAD"] if off else []) + ["LENF", "S"] + ([] if last else ["TAIL"])       # last: the string is the LAST field (it may end in the packet's last byte)
     xml = doc(types=types, params=[("PAD", "PAD_T"), ("LENF", "LENF_T"), ("S", "S_T"), ("TAIL", "U4_T")], root_entries=ents, children="",
               root_abstract="false")
     return xml, 6 + 10, f"string {codec} {delim} {src} offset {off}"
@@ -346,9 +357,12 @@ _old_get = get
 
 def get(name):      # noqa: F811
     if name.startswith("S|"):
+        last = name.endswith("|LAST")
+        if last:
+            name = name[:-5]
         _, codec, delim, src, off = name.split("|")[:5]
         order = name.split("|")[5] if name.count("|") >= 5 else "mostSignificantByteFirst"
-        return string_template(codec, delim, src, int(off), order)
+        return string_template(codec, delim, src, int(off), order, last=last)
     if name.startswith("B|"):
         _, src, off = name.split("|")
         return binary_template(src, int(off))
@@ -385,6 +399,8 @@ def _pool(j, ref):
         lambda: ('<xtce:EnumeratedParameterType name="M' + n + '"><xtce:IntegerDataEncoding sizeInBits="3" encoding="signed">' + DEFCAL(POLY((1, 0), (1, 1)))
                  + '</xtce:IntegerDataEncoding><xtce:EnumerationList><xtce:Enumeration label="NEG" value="-1"/><xtce:Enumeration label="Z" value="0"/>'
                  '<xtce:Enumeration label="ONE" value="1"/><xtce:Enumeration label="TWO" value="2"/></xtce:EnumerationList></xtce:EnumeratedParameterType>'),
+        # zero-order (step) spline as the DEFAULT calibrator over the whole raw range: every knot, interior ones included, is an ordinary raw value
+        lambda: I("M" + n, 4, "unsigned", DEFCAL(SPLINE([(0, 1.5), (5, -2), (9, 4), (15, 0.5)], 0))),
     ]
 
 
